@@ -79,6 +79,26 @@ pub fn bdd_from_tt<'a, T: IteTable<'a, BddPtr<'a>> + Default>(b: &'a RobddBuilde
     go(b, t, 0, n)
 }
 
+/// the same with oracle variable v played by builder label `labels[v]`
+pub fn bdd_from_tt_labels<'a, T: IteTable<'a, BddPtr<'a>> + Default>(b: &'a RobddBuilder<'a, T>, t: Tt, labels: &[usize]) -> BddPtr<'a> {
+    fn go<'a, T: IteTable<'a, BddPtr<'a>> + Default>(b: &'a RobddBuilder<'a, T>, t: Tt, v: usize, labels: &[usize]) -> BddPtr<'a> {
+        if t.is_true() {
+            return b.true_ptr();
+        }
+        if t.is_false() {
+            return b.false_ptr();
+        }
+        assert!(v < labels.len(), "truth table depends on a variable outside the builder");
+        if !t.depends(v) {
+            return go(b, t, v + 1, labels);
+        }
+        let lo = go(b, t.cofactor(v, false), v + 1, labels);
+        let hi = go(b, t.cofactor(v, true), v + 1, labels);
+        b.ite(b.var(VarLabel::new_usize(labels[v]), true), hi, lo)
+    }
+    go(b, t, 0, labels)
+}
+
 /// build an SDD of truth table `t` with and/or/negate only (works for every SddBuilder)
 pub fn sdd_from_tt<'a, B: SddBuilder<'a>>(b: &'a B, t: Tt, n: usize) -> SddPtr<'a> {
     fn go<'a, B: SddBuilder<'a>>(b: &'a B, t: Tt, v: usize, n: usize) -> SddPtr<'a> {
